@@ -1,6 +1,6 @@
 """Symbolic interpretation of the two model-package readers (Models._read_version_1/_2)."""
 from . import alg
-from .alg import Poly, P, B, C, sym, mk_fn
+from .alg import Poly, P, B, C, L, sym, mk_fn
 from .interp import Interp, Hooks, Arr, Obj, Unk, GenList, symarr, scalar, num, unit_atom
 from .astutil import up
 
@@ -91,7 +91,7 @@ def reference(same_distance=False, named=True):
         dist = d0 * kpc
     else:
         n = mk_fn('int', P(mk_fn('ceil', P(1 + (alg.log10(d1) - alg.log10(d0)) / step))))
-        dist = mk_fn('logspace', P(alg.log10(d0)), P(alg.log10(d1)), P(n)) * kpc
+        dist = mk_fn('logspace', L('d'), P(alg.log10(d0)), P(alg.log10(d1)), P(n)) * kpc
     theta = sym('theta', W)
     ap = theta * (dist / pc) * au
     if named:
